@@ -148,3 +148,12 @@ def m4_normal_form(a: int, b: int, nw: bool) -> bool:
         t = r.render(Document(s))
     # the skeletons use the spacing that normalize_whitespace would produce, so both settings must reproduce them
     return t == s and mistletoe.markdown(t) == mistletoe.markdown(s)
+
+
+def witness_empty_fence():
+    """(fixed) an empty fenced code block gained a line in the round trip"""
+    import mistletoe
+    from mistletoe import Document
+    with MarkdownRenderer() as r:
+        t = r.render(Document('```\n```\n'))
+    return mistletoe.markdown(t) != mistletoe.markdown('```\n```\n'), "Markdown round trip of an empty fence gives %r" % t
